@@ -240,6 +240,23 @@ def main():
                                   % (nx_, ny_, vals, node, d_, " (at the roughness node the flux is the source itself)" if node == 0 else ""),
                                   {"kind": "closed_form", "grid": [nx_, ny_], "values": vals, "node": node}, klass={"check": "closed_form", "node0": node == 0})
                     break
+    # the NUMERICAL mode at the roughness node (requested in any slot): the sweep starts from the surface condition, so the flux
+    # there is the source itself, component by component - no discretisation error is involved
+    for (nx_, ny_) in ((8, 6), (9, 7)):
+        vals = (3.0, 1.0, 2.0, 2.0, 2.0)
+        zc = 0.2 * 1.3 ** np.arange(13)
+        profc = tuple(np.full(13, v_) for v_ in vals)
+        qc = rng.standard_normal((ny_, nx_)) + 0.3
+        for lv in ([5, 0], [0, 7, 12], 0):
+            _, pn_, fn_ = _steady(qc, zc, profc, (16.0 * nx_, 12.0 * ny_), lv, modes=(64, 64), halo=0.0, precision="double")
+            fn_ = np.asarray(fn_).reshape(-1, ny_, nx_)
+            slot0 = list(np.atleast_1d(lv)).index(0)
+            ncf += 1
+            d_ = float(np.max(np.abs(fn_[slot0] - qc))) / float(np.max(np.abs(qc)))
+            if not d_ <= 1e-9:
+                chk.violation("numerical mode on a %d x %d grid, all modes, levels=%s: the flux at the roughness node (slot %d) differs from the source by %.3e relative" % (nx_, ny_, lv, slot0, d_),
+                              {"kind": "numeric_surface_flux", "grid": [nx_, ny_], "levels": lv}, klass={"check": "closed_form", "node0": True})
+                break
     chk.extra["closed_form_slices"] = ncf
     # the NUMERICAL mode against the same closed form on a column that is tall against the cell size (components decay by up to
     # exp(-50) over the column, by far less at a low node): near the surface every retained component still converges
